@@ -79,4 +79,32 @@ Section FormatProofs.
   Corollary r_formats_agree (O : NumOps T) (c : @rcfg T) (s : @rstate T) :
     r_read O Text c (r_write O Text c s) = r_read O Binary c (r_write O Binary c s).
   Proof. rewrite !r_read_write. reflexivity. Qed.
+
+  Theorem a_fields_roundtrip (d : T) (v : T * (T * T * bool)) : a_of_fields d (a_fields v) = v.
+  Proof. destruct v as [r [[st k] dec]]. destruct dec; reflexivity. Qed.
+
+  Theorem x_fields_roundtrip (d : T) (v : T * T * T) : x_of_fields d (x_fields v) = v.
+  Proof. destruct v as [[x xr] vr]. reflexivity. Qed.
+
+  Theorem m_fields_roundtrip (k : Z) : m_of_fields (T:=T) (m_fields k) = k.
+  Proof. reflexivity. Qed.
+
+  Lemma as_ints_map (l : list Z) : as_ints (T:=T) (map VInt l) = Some l.
+  Proof. induction l as [|x r IH]; cbn [map as_ints]; [reflexivity|]. rewrite IH. reflexivity. Qed.
+
+  Theorem grid_fields_roundtrip (k : nat) (vals : list Z) : grid_of_fields (T:=T) k (grid_field k vals) = Some vals.
+  Proof. unfold grid_of_fields, grid_field. cbn [lookup bind]. rewrite Nat.eqb_refl. apply as_ints_map. Qed.
+
+  (* every modelled object's fields survive either format *)
+  Theorem objects_read_write (f : format) :
+    (forall (d : T) (v : T * (T * T * bool)), a_of_fields d (decode f (encode f (a_fields v))) = v) /\
+    (forall (d : T) (v : T * T * T), x_of_fields d (decode f (encode f (x_fields v))) = v) /\
+    (forall k, m_of_fields (T:=T) (decode f (encode f (m_fields k))) = k) /\
+    (forall k vals, grid_of_fields (T:=T) k (decode f (encode f (grid_field k vals))) = Some vals) /\
+    (forall v : rsaved (T:=T), r_of_fields (decode f (encode f (r_fields v))) = v).
+  Proof.
+    repeat split; intros; rewrite decode_encode.
+    - apply a_fields_roundtrip. - apply x_fields_roundtrip. - apply m_fields_roundtrip.
+    - apply grid_fields_roundtrip. - apply r_fields_roundtrip.
+  Qed.
 End FormatProofs.
